@@ -37,7 +37,7 @@ ASSUMPTIONS = [
 CHUNK = 1
 
 BACKENDS = ["sv", "svnoise", "mps", "dmrg", "mpsnoisy"]
-MODES = ["per_observable", "default", "mixed", "default_then_own", "rerun"]
+MODES = ["per_observable", "default", "mixed", "default_then_own", "rerun", "same_class"]
 
 
 def _dts(T, tier):
@@ -127,7 +127,13 @@ def run_case(case):
         ckw = {}
         if mode == "rerun" and (second or len(ev) != 2):
             continue
-        if mode == "default_then_own":
+        if mode == "same_class":
+            if second or len(first) < 2:
+                continue
+            # two Occupation observables (second one under a tag suffix) with different times
+            obs = [mod.Occupation(evaluation_times=list(first[:1])), mod.Occupation(evaluation_times=list(first[1:]), tag_suffix="late")]
+            want = {"occupation": list(first[:1]), "occupation_late": list(first[1:])}
+        elif mode == "default_then_own":
             if second or len(first) < 2:
                 continue
             # first observable follows the config default (the first time), the second one brings its own times
@@ -193,7 +199,7 @@ def run_case(case):
                 continue
             for t in exp:
                 o = ref.observables(t)
-                if tag == "occupation":
+                if tag.startswith("occupation"):
                     g = runner.to_np(runner.get_at(res, tag, t)).astype(float)
                     chk += float(g.sum())
                     err = np.abs(g - o["occupation"]).max()
@@ -205,6 +211,6 @@ def run_case(case):
                     err = abs(g - o["energy"]) / max(1.0, ref.max_norm_H())
                     lim = 2e-6
                 if not err <= lim:
-                    return result(False, sig=f"value|{be}|{tag}", msg=f"{label}: {tag} stored for t={t} is {np.round(g, 6).tolist()} but the state at exactly that time gives {np.round(o['occupation' if tag == 'occupation' else 'energy'], 6).tolist()} (err {err:.2e})", outcome="value", states=states, transitions=transitions)
+                    return result(False, sig=f"value|{be}|{tag}", msg=f"{label}: {tag} stored for t={t} is {np.round(g, 6).tolist()} but the state at exactly that time gives {np.round(o['occupation' if tag.startswith('occupation') else 'energy'], 6).tolist()} (err {err:.2e})", outcome="value", states=states, transitions=transitions)
         nontriv += any(abs((e * T / dt) - round(e * T / dt)) > 1e-6 for e in allev)
     return result(True, outcome=["ok", states, round(chk, 3)], states=max(states, 1), transitions=max(transitions, 1), nontrivial=nontriv > 0)
